@@ -1487,6 +1487,9 @@ class SpaceManager(SharedSpaceOperations):
                 raise ValueError("Cannot create reference '%s'" % name)
 
         self._check_subs_relrefs(space, name, value, refmode)
+        if name in space.refs:
+            # The new reference shadows a model-level one of the same name
+            self.model.clear_attr_referrers(space.refs[name])
         result = space.on_create_ref(name, value, is_derived=False,
                             refmode=refmode)
 
